@@ -50,6 +50,9 @@ def scripts(tier):
     for a in syms:
         for b in syms[:2]:
             out.append(('cmds', (a, b), 'lazy'))
+    # a command submitted as bytes that are not ASCII, alone, in front of and behind another one
+    for t in ((('B', 'M1'),), (('B', 'M1'), ('P', 'M1')), (('P', 'D'), ('B', 'M1')), (('K', 'M1'), ('B', 'M1'), ('P', 'M1'))):
+        out.append(('cmds', t, 'up'))
     out.append(('idle', (), 'up'))
     for nuser in (0, 1, 2):
         out.append(('auth', nuser, 'up'))
